@@ -333,7 +333,7 @@ func sinkText(v *lisp.LVal) string {
 type widthObs struct {
 	Got      []string // per sink
 	Want     []string // per sink: the model's text, or the twin's text from the same runtime
-	Backing  string   // Go type behind m
+	Impl     string   // Go type of the lisp.Map implementation behind m
 	SetupErr string
 }
 
@@ -359,7 +359,7 @@ func (w widthCase) observe() widthObs {
 		return sinkText(env.LEnv.LoadString("width-sink", expr))
 	}
 	if m := env.LEnv.LoadString("width-sink", "m"); m.Type == lisp.LSortMap {
-		o.Backing = backingType(m)
+		o.Impl = backingType(m)
 	}
 	for _, s := range widthSinks {
 		o.Got = append(o.Got, eval(s.expr))
@@ -389,10 +389,16 @@ type widthFail struct {
 	expected string
 	got      string
 	count    int
+	narrow   map[string]int // backing / history -> narrowest disagreeing width
 }
 
-func widthClass(wc widthCase, sink string) string {
-	return "width:" + wc.Backing + ":" + sink
+// widthClass: the Map implementation behind the map under test (the code whose enumeration is wrong) and the sink
+// that showed it; which backings / histories disagree, and from which width on, goes into the note.
+func widthClass(impl, sink string) string {
+	if impl == "" {
+		impl = "setup"
+	}
+	return "width:" + impl + ":" + sink
 }
 
 func allWidthCases(maxN int) []widthCase {
@@ -415,7 +421,7 @@ func widthMax(thorough bool) int {
 		return v // development / measurement override; the bound in force is reported as width_max_entries
 	}
 	if thorough {
-		return 300 // past 256
+		return 264 // past 256
 	}
 	return 136 // past 8, 16, 32, 64 and 128, the sizes a two-path implementation is likely to switch at
 }
@@ -424,11 +430,11 @@ func runWidth(r *core.Run) {
 	maxN := widthMax(r.Thorough())
 	// One fresh runtime per case decides against the model; two texts that both equal the model's text are equal, so
 	// further runtimes add only further samples of Go's iteration seed (every case already enumerates its map ~20
-	// times, and 9 cases share each width and backing).  The thorough tier runs each case three times and also
-	// compares the runs with each other.
+	// times, and 9 cases share each width and backing).  The thorough tier runs each case twice and also compares
+	// the two runs with each other.
 	repeats := 1
 	if r.Thorough() {
-		repeats = 3
+		repeats = 2
 	}
 	cases := allWidthCases(maxN)
 	r.Bound("width_max_entries", maxN)
@@ -448,18 +454,21 @@ func runWidth(r *core.Run) {
 
 	var mu sync.Mutex
 	fails := map[string]*widthFail{}
-	record := func(wc widthCase, sink int, expected, got string) {
-		cls := widthClass(wc, widthSinks[sink].name)
+	record := func(wc widthCase, impl string, sink int, expected, got string) {
+		cls := widthClass(impl, widthSinks[sink].name)
 		mu.Lock()
 		defer mu.Unlock()
 		f := fails[cls]
 		if f == nil {
-			fails[cls] = &widthFail{wc: wc, sink: sink, expected: expected, got: got, count: 1}
-			return
+			f = &widthFail{wc: wc, sink: sink, expected: expected, got: got, narrow: map[string]int{}}
+			fails[cls] = f
 		}
 		f.count++
+		if n, ok := f.narrow[wc.Backing]; !ok || wc.N < n {
+			f.narrow[wc.Backing] = wc.N
+		}
 		// keep the simplest: cases are enumerated narrow-first, but workers run them out of order
-		if wc.N < f.wc.N {
+		if wc.N < f.wc.N || (wc.N == f.wc.N && wc.id() < f.wc.id()) {
 			f.wc, f.sink, f.expected, f.got = wc, sink, expected, got
 		}
 	}
@@ -474,13 +483,13 @@ func runWidth(r *core.Run) {
 			o := wc.observe()
 			r.AddEvals(int64(1 + 2*len(widthSinks)))
 			if o.SetupErr != "" {
-				record(wc, 0, "the map is built", "setup failed: "+o.SetupErr)
+				record(wc, "", 0, "the map is built", "setup failed: "+o.SetupErr)
 				return
 			}
 			if rep == 0 {
 				first = o
 				r.AddTraces(1)
-				r.Outcome("width:backed-by:" + o.Backing)
+				r.Outcome("width:backed-by:" + o.Impl)
 			}
 			for s := range widthSinks {
 				r.AddTransitions(1)
@@ -489,10 +498,10 @@ func runWidth(r *core.Run) {
 					if widthSinks[s].model == nil {
 						what = "the text the same sink gives for the constructor-built twin in the same runtime: "
 					}
-					record(wc, s, what+trunc(o.Want[s], 400), diffAt(o.Want[s], o.Got[s]))
+					record(wc, o.Impl, s, what+trunc(o.Want[s], 400), diffAt(o.Want[s], o.Got[s]))
 				} else if rep > 0 && o.Got[s] != first.Got[s] {
 					r.AddTransitions(1)
-					record(wc, s, "the text of the first fresh runtime: "+trunc(first.Got[s], 400), diffAt(first.Got[s], o.Got[s]))
+					record(wc, o.Impl, s, "the text of the first fresh runtime: "+trunc(first.Got[s], 400), diffAt(first.Got[s], o.Got[s]))
 				}
 			}
 		}
@@ -514,15 +523,18 @@ func runWidth(r *core.Run) {
 			}
 		}
 		k := widthKase{Target: target{ID: wc.id(), Src: wc.setup() + "\n" + widthSinks[f.sink].expr}, Kind: "width", Width: &wc}
-		if again < 5 {
+		if again == 0 {
+			// seen once, never again in five further runtimes: cannot be replayed, so it is not reported as a violation
 			r.Flaky(map[string]any{"class": cls, "case": k, "reproduced": again, "of": 5, "got": f.got})
 			continue
 		}
-		r.Violate("c10", cls, k, f.expected, f.got,
-			fmt.Sprintf("narrowest of %d disagreeing (case, sink, runtime) points of this class; disagreed with the oracle in 5 of 5 further fresh runtimes", f.count))
-		for n := 1; n < f.count && n < 3; n++ {
-			r.CountOnly(cls)
+		var where []string
+		for b, n := range f.narrow {
+			where = append(where, fmt.Sprintf("%s from width %d", b, n))
 		}
+		sort.Strings(where)
+		r.Violate("c10", cls, k, f.expected, f.got,
+			fmt.Sprintf("narrowest of %d disagreeing (case, runtime) points of this class; it disagreed with the oracle again in %d of 5 further fresh runtimes (the oracle is one fixed text, so an outcome that disagrees only sometimes is itself what the property forbids). Backings / histories that disagree: %s", f.count, again, strings.Join(where, "; ")))
 	}
 	mid := cases[len(cases)/2]
 	r.Sample(widthKase{Target: target{ID: mid.id(), Src: mid.setup()}, Kind: "width", Width: &mid})
@@ -553,6 +565,11 @@ func replayWidth(k widthKase) (bool, string) {
 	if k.Width == nil {
 		return false, "no width case recorded"
 	}
-	bad, rep := k.Width.disagrees()
-	return bad, fmt.Sprintf("case %s\nsetup program:\n%s\n%s", k.Width.id(), trunc(k.Width.setup(), 1500), rep)
+	// up to five fresh runtimes: the oracle is one fixed text, a defect of this property may meet it now and then
+	for i := 1; i <= 5; i++ {
+		if bad, rep := k.Width.disagrees(); bad {
+			return true, fmt.Sprintf("case %s (fresh runtime %d of 5)\nsetup program:\n%s\n%s", k.Width.id(), i, trunc(k.Width.setup(), 1500), rep)
+		}
+	}
+	return false, fmt.Sprintf("case %s\nsetup program:\n%s\nevery sink gave its oracle's text in 5 fresh runtimes", k.Width.id(), trunc(k.Width.setup(), 1500))
 }
